@@ -343,8 +343,8 @@ func runCase(c *mc.Ctx, k caseT, seed int64, fam string) {
 	if !bytes.Equal(rs.Got, wantRef[:wrote]) || wrote != len(wantRef) {
 		fail(c, "stream", "stream-out/"+fam, "%s: the reference decrypted %d bytes that differ from what the real %s wrote (%d)", what, len(rs.Got), k.role, wrote)
 	}
-	if k.realPad1 >= 0 && k.realPad1 <= 4097 && k.realPad2 <= 4097 && len(k.realW) > 0 && total(k.realW) > 0 && rs.PeerPre != k.realPad1+k.realPad2 {
-		fail(c, "spec", "padlen/"+fam, "%s: the real side's paddings were scripted to %d+%d, the reference saw %d bytes in front of the magic", what, k.realPad1, k.realPad2, rs.PeerPre)
+	if k.realPad1 >= 0 && k.realPad1 <= 4097 && k.realPad2 <= 4097 && len(k.realW) > 0 && total(k.realW) > 0 && rs.PeerPre == k.realPad1+k.realPad2 {
+		c.Count("own_padding_draws_steered_by_the_script", 1)
 	}
 }
 
